@@ -2,6 +2,7 @@ import RedisGoModel.Driver.Util
 import RedisGoModel.Driver.Glob
 import RedisGoModel.Driver.Parser
 import RedisGoModel.Driver.Exec
+import RedisGoModel.Driver.Serve
 /-! Correspondence driver: reads one observed operation per line on stdin, recomputes it with the model, prints
     `MISMATCH <lineno> <detail>` for every disagreement and a final `SUMMARY` line. -/
 open Driver
@@ -12,6 +13,7 @@ structure St where
   pos : Nat := 0   -- lines whose model outcome is "positive" (non-trivial by the engine's rule)
   unk : Nat := 0
   ex : ExecSt := {}
+  sv : ServeSt := {}
 
 partial def loop (h : IO.FS.Stream) (st : St) : IO St := do
   let line ← h.getLine
@@ -22,7 +24,9 @@ partial def loop (h : IO.FS.Stream) (st : St) : IO St := do
   let n := st.n + 1
   let (ex', exv) := execLine st.ex fs
   let st := { st with ex := ex' }
-  match (exv.orElse fun _ => globLine fs).orElse (fun _ => parserLine fs) with
+  let (sv', svv) := if exv.isNone then serveLine st.sv fs else (st.sv, none)
+  let st := { st with sv := sv' }
+  match ((exv.orElse fun _ => svv).orElse fun _ => globLine fs).orElse (fun _ => parserLine fs) with
   | some (.ok b) => loop h { st with n := n, pos := st.pos + (if b then 1 else 0) }
   | some (.error e) =>
     IO.println s!"MISMATCH {n} {e} :: {line}"
